@@ -427,8 +427,47 @@ def as_dict_comp(t):
     return t
 
 
+def _line_slots_by_use(prog, cls):
+    """the three attributes by what format() does with them: tags start as a copy of <defaults>; a record key is a tag iff
+    `key in <whitelist>`; it is a field iff `key not in <blacklist>`"""
+    fmt = prog.lookup_method(cls, "format")
+    if fmt is None:
+        return {}
+    alias = {}
+    for t, v in util.simple_assignments(fmt.node):
+        if isinstance(t, ast.Name) and slots._self_attr(v):
+            alias.setdefault(t.id, set()).add(slots._self_attr(v))
+
+    def attr_of(e):
+        if slots._self_attr(e):
+            return slots._self_attr(e)
+        if isinstance(e, ast.Name) and len(alias.get(e.id, ())) == 1:
+            return next(iter(alias[e.id]))
+        return None
+
+    out = {}
+    for n in ast.walk(fmt.node):
+        if isinstance(n, ast.Compare) and len(n.ops) == 1 and isinstance(n.ops[0], (ast.In, ast.NotIn)) and attr_of(n.comparators[0]):
+            out.setdefault("whitelist" if isinstance(n.ops[0], ast.In) else "blacklist", attr_of(n.comparators[0]))
+    for t, v in util.simple_assignments(fmt.node):
+        if isinstance(t, ast.Name) and t.id == "tags":
+            src = None
+            if isinstance(v, ast.Call) and isinstance(v.func, ast.Attribute) and v.func.attr == "copy":
+                src = attr_of(v.func.value)
+            elif isinstance(v, ast.Call) and util.dotted(v.func) == "dict" and v.args:
+                src = attr_of(v.args[0])
+            elif isinstance(v, ast.Dict) and v.keys and v.keys[0] is None:
+                src = attr_of(v.values[0])
+            if src:
+                out.setdefault("defaults", src)
+    return out
+
+
 def line_slots(prog):
     cls = prog.cls(LINE_FMT)
+    used = _line_slots_by_use(prog, cls)
+    if {"defaults", "whitelist", "blacklist"} <= set(used):
+        return {"resolution": slots.attr_from_param(prog, cls, "resolution"), **used}
     return {
         "resolution": slots.attr_from_param(prog, cls, "resolution"),
         "defaults": slots.attr_from_expr(prog, cls, lambda v, t: "Mapping" in t and "tags" in t and "set(" not in t, "default tags"),
@@ -628,7 +667,10 @@ def line_formatter_rules(chk):
             is_union = (isinstance(v, ast.BinOp) and isinstance(v.op, ast.BitOr)) or (
                 isinstance(v, ast.Call) and isinstance(v.func, ast.Attribute) and v.func.attr == "union" and (v.args or isinstance(v.func.value, ast.Call))
             ) or (isinstance(v, ast.Set) and all(isinstance(e, ast.Starred) for e in v.elts) and len(v.elts) == 2)
-            if LS["whitelist"] in txt and "RECORD_ATTRIBUTES" in txt and is_union:
+            # the whitelist may be named through the local that is stored into the whitelist attribute
+            wl_locals = {val.id for tg, val in util.simple_assignments(init.node) if isinstance(val, ast.Name) and isinstance(tg, ast.Attribute) and tg.attr == LS["whitelist"] and len([1 for t2, _v2 in util.simple_assignments(init.node) if isinstance(t2, ast.Name) and t2.id == val.id]) == 1}
+            names_wl = LS["whitelist"] in txt or any(isinstance(x, ast.Name) and x.id in wl_locals for x in ast.walk(v))
+            if names_wl and "RECORD_ATTRIBUTES" in txt and is_union:
                 ok_bl = True
             else:
                 chk.bad(rule, init.qual, "the field blacklist is %s (required: whitelist united with the log-record attribute names)" % txt, node=st)
